@@ -20,6 +20,14 @@ import re, itertools
 class Unsupported(Exception):
     pass
 
+class PathLimit(Exception):
+    pass
+
+# optional hook set by the driver: PROVER(ctx, smt_bool_string) -> True if the path constraints imply it
+PROVER = None
+def proves(ctx, cond):
+    return PROVER is not None and PROVER(ctx, cond)
+
 # ----------------------------------------------------------------------------- types
 INT_TY = {}
 for w in (8, 16, 32, 64, 128):
@@ -407,6 +415,8 @@ def bitand(ctx, a, b, ty):
             j = i
             while (b >> j) & 1:
                 j += 1
+            if not isinstance(a, int) and a.hi >= (1 << i) and i > 0 and proves(ctx, "(< %s %d)" % (a.s, 1 << i)):
+                break       # nothing of `a` reaches this run of the mask
             hi_part, _ = divmod_pow2(ctx, a, i)
             _, piece = divmod_pow2(ctx, hi_part, j - i)
             res = add(res, mul(piece, 1 << i))
@@ -425,6 +435,14 @@ def bitor(ctx, a, b, ty):
             r = add(x, y)
             if isinstance(r, T) and isinstance(x, T) and x.split is not None and x.split[2] == 0 and hi_of(y) < (1 << x.split[0]):
                 r.split = (x.split[0], x.split[1], y)
+            return r
+    for x, y in ((a, b), (b, a)):
+        k = min(tz_of(x), 200)
+        if isinstance(x, T) and k > 0 and lo_of(y) >= 0 and lo_of(x) >= 0 and proves(ctx, "(< %s %d)" % (sx(y), 1 << k)):
+            r = add(x, y)
+            if isinstance(r, T) and x.split is not None and x.split[2] == 0 and x.split[0] <= k:
+                yy = y if isinstance(y, int) else T(y.s, y.lo, min(y.hi, (1 << k) - 1), y.tz)
+                r.split = (x.split[0], x.split[1], yy) if x.split[0] == k else None
             return r
     raise Unsupported("bitor of overlapping symbolic values")
 
@@ -459,7 +477,7 @@ def parse_mir(text):
     i = 0
     while i < len(lines):
         ln = lines[i]
-        m = re.match(r"^(?:pub )?(?:const|static) (.+?): (.+?) = (.*)$", ln)
+        m = re.match(r"^(?:pub )?(?:const|static) (.+): ([^=]+?) = (.*)$", ln)
         if m and not ln.startswith(" "):
             name, ty, rest = m.group(1), m.group(2), m.group(3)
             if rest.startswith("const ") and rest.endswith(";"):
@@ -574,6 +592,7 @@ class Interp:
     def __init__(self, fns, consts, statics, interpret, intrinsics=None, feasible=None, max_paths=4000):
         self.fns, self.consts, self.statics = fns, consts, statics
         self.interpret = set(interpret)
+        max_paths = max(max_paths, 20000)
         self.obligations = []
         self.feasible = feasible or (lambda ctx, extra: True)
         self.paths = 0
@@ -582,6 +601,7 @@ class Interp:
         self.interpreted_calls = set()
         self.impl_consts = {}      # "<F as Trait>::NAME" -> value, supplied by the caller
         self.intrinsics_used = set()
+        self.const_cache = {}
         self.tolerate_unsupported = False
         self.unsupported_paths = []
 
@@ -643,9 +663,14 @@ class Interp:
             kind, val, ty = self.consts[cands[-1]]
             if kind == "lit":
                 return self.const(val, env)
+            if key in self.const_cache:
+                return self.const_cache[key]
+            saved = self.paths
             outs = list(self.run_fn(val, [], Ctx()))
+            self.paths = saved
             if len(outs) != 1:
                 raise Unsupported("constant body with several paths: " + key)
+            self.const_cache[key] = outs[0][1]
             return outs[0][1]
         raise Unsupported("constant: " + s)
 
@@ -905,7 +930,9 @@ class Interp:
             while isinstance(v, F64) and v.kind == "neg":
                 v = v.arg
             if isinstance(v, F64) and v.kind == "bits" and not isinstance(v.arg, Opq):
+                ctx.cache[("isinf_decided",)] = True
                 yield ctx, cmp_("Eq", v.arg, 0x7FF0000000000000); return
+            ctx.cache[("isinf_decided",)] = False
             yield ctx, Opq("is_infinite"); return
         if last == "from_u64_bits":
             if isinstance(args[0], Opq):
@@ -964,7 +991,7 @@ class Interp:
         if term == "return;":
             self.paths += 1
             if self.paths > self.max_paths:
-                raise Unsupported("more than %d paths" % self.max_paths)
+                raise PathLimit("more than %d paths" % self.max_paths)
             yield ctx, env.get("_0")
             return
         if term == "unreachable;":
